@@ -142,10 +142,98 @@ let dict_dump (s : state) (from : int) : str =
        (match f with FInterp a -> "i" ^ soi (ion a) | FNative n -> "n" ^ string_of_coq n) ^
        (match len with Some n -> " " ^ soi (ion n) | None -> " -"))) (drop from s.dict))
 
+type sess = { mutable states : state array; mutable cur : int }
 exception Unsupported
+
+let fnv (h : int64 ref) (s : str) =
+  Stdlib.String.iter (fun c ->
+    h := Int64.logxor !h (Int64.of_int (Char.code c));
+    h := Int64.mul !h 0x100000001b3L) s
+
+let dump_nometer (d : str) : str =
+  let find sub =
+    let n = Stdlib.String.length d and m = Stdlib.String.length sub in
+    let rec go i = if i + m > n then -1 else if Stdlib.String.sub d i m = sub then i else go (i + 1) in go 0 in
+  let a = find " ; meter " and b = find " ; limits " in
+  if a >= 0 && b >= 0 then Stdlib.String.sub d 0 a ^ Stdlib.String.sub d b (Stdlib.String.length d - b) else d
+
+let lcg_next (st : int64 ref) (n : int) : int =
+  st := Int64.add (Int64.mul !st 6364136223846793005L) 1442695040888963407L;
+  Int64.to_int (Int64.unsigned_rem (Int64.shift_right_logical !st 33) (Int64.of_int n))
+
+let err_text k p = "E" ^ kind_str k ^ (match p with Some c -> "(" ^ cell_str c ^ ")" | None -> "")
+
+let walk (ss : sess) (seed : int64) (maxfwd : int) (moves : int) : str =
+  let get () = ss.states.(ss.cur) in
+  let set s = ss.states.(ss.cur) <- s in
+  let dmp () = dump_nometer (dump true (get ())) in
+  let recd = ref [| dmp () |] in
+  let h = ref 0xcbf29ce484222325L in
+  let failed = ref "-" in
+  let stop = ref false in
+  while not !stop && Vm.is_running (get ()) && Array.length !recd <= maxfwd do
+    (match Vm.next nf (get ()) with
+     | ROk ((), s') -> set s'; let d = dmp () in fnv h d; recd := Array.append !recd [| d |]
+     | RErr (k, p, s') -> set s'; failed := err_text k p; stop := true
+     | RPanic -> failed := "PANIC"; stop := true
+     | RUnsup -> raise Unsupported)
+  done;
+  let n = Array.length !recd - 1 in
+  let pos = ref n in
+  let result = ref None in
+  if !failed <> "-" then begin
+    (match Vm.rnext (get ()) with
+     | ROk ((), s') -> set s'
+     | RErr (k, p, s') -> set s'; result := Some ("walk:MISMATCH rnext-after-failure " ^ err_text k p)
+     | RPanic -> result := Some "walk:PANIC" | RUnsup -> raise Unsupported);
+    if !result = None then begin
+      let d = dmp () in
+      if d = !recd.(n) then pos := n
+      else if n > 0 && d = !recd.(n - 1) then pos := n - 1
+      else result := Some (Printf.sprintf "walk:MISMATCH after-failed-step n=%d got=%s" n d);
+      fnv h d
+    end
+  end;
+  let g = ref seed in
+  let k = ref 0 in
+  while !result = None && !k < moves && n > 0 do
+    let back = if !pos = 0 then false else if !pos = n then true else lcg_next g 3 <> 0 in
+    let r = if back then Vm.rnext (get ()) else Vm.next nf (get ()) in
+    (match r with
+     | ROk ((), s') -> set s'; if back then decr pos else incr pos
+     | RErr (kk, p, s') -> set s'; result := Some (Printf.sprintf "walk:MISMATCH move=%d %s %s" !k (if back then "rnext" else "next") (err_text kk p))
+     | RPanic -> result := Some "walk:PANIC" | RUnsup -> raise Unsupported);
+    if !result = None then begin
+      let d = dmp () in
+      if d <> !recd.(!pos) then
+        result := Some (Printf.sprintf "walk:MISMATCH move=%d pos=%d back=%b expected=%s got=%s" !k !pos back !recd.(!pos) d);
+      fnv h d
+    end;
+    incr k
+  done;
+  match !result with
+  | Some r -> r
+  | None -> Printf.sprintf "walk:ok n=%d failed=%s hash=%016Lx" n !failed !h
+
+let stepcheck (ss : sess) (maxsteps : int) : str =
+  let get () = ss.states.(ss.cur) in
+  let steps = ref 0 and res = ref "ok" and stop = ref false in
+  let maxds = ref (SL.length (get ()).ds) and maxheap = ref (SL.length (get ()).heap) in
+  while not !stop && Vm.is_running (get ()) && !steps < maxsteps do
+    let r = Vm.next nf (get ()) in
+    incr steps;
+    (match r with
+     | ROk ((), s') -> ss.states.(ss.cur) <- s'
+     | RErr (k, p, s') -> ss.states.(ss.cur) <- s'; res := err_text k p; stop := true
+     | RPanic -> res := "PANIC"; stop := true
+     | RUnsup -> raise Unsupported);
+    maxds := max !maxds (SL.length (get ()).ds);
+    maxheap := max !maxheap (SL.length (get ()).heap)
+  done;
+  Printf.sprintf "stepcheck:%s steps=%d maxds=%d maxheap=%d" !res !steps !maxds !maxheap
+
 exception ModelPanic
 
-type sess = { mutable states : state array; mutable cur : int }
 
 let res_str (r : unit res) : str * state option =
   match r with
@@ -164,6 +252,16 @@ let step (ss : sess) (t : str array) : str =
   | "run" -> (match Vm.run nf run_fuel s with Some r -> upd (res_str r) | None -> raise Unsupported)
   | "next" -> upd (res_str (Vm.next nf s))
   | "rnext" -> upd (res_str (Vm.rnext s))
+  | "stepall" ->
+    let rec go (s : state) (guard : int) : unit res =
+      if Vm.is_running s && guard > 0 then
+        (match Vm.next nf s with
+         | ROk ((), s') -> go s' (guard - 1)
+         | e -> e)
+      else ROk ((), s) in
+    upd (res_str (go s 1000000))
+  | "walk" -> walk ss (Int64.of_string t.(1)) (int_of_string t.(2)) (int_of_string t.(3))
+  | "stepcheck" -> stepcheck ss (int_of_string t.(1))
   | "rec" ->
     ss.states.(ss.cur) <- (if t.(1) = "on" then (match s.rlog with None -> set_rlog s (Some []) | Some _ -> s) else set_rlog s None); "ok"
   | "limits" ->
